@@ -63,6 +63,11 @@ def main():
                 brc, bsigs, bn, _ = baseline[key]
                 new = sigs - bsigs
                 caught = (rc == 1) and (bool(new) or n > bn)
+                if not caught and base == head and m["confirmed"]["base_commit"] != head:
+                    # a later repair in /repo may have neutralised the seeded change on HEAD: judge it on
+                    # the commit it was written against
+                    print("%-8s %s not caught on HEAD %s, retrying on its base commit" % (sid, prop, head), flush=True)
+                    continue
                 rows.append((sid, prop, base, "caught" if caught else "MISSED", sorted(new)[:2], rc))
                 print("%-8s %s base=%s %-7s rc=%d new=%s" % (sid, prop, base, "caught" if caught else "MISSED", rc,
                                                             "; ".join(sorted(new))[:160]), flush=True)
@@ -72,7 +77,7 @@ def main():
                 break
             finally:
                 sh("git", "-C", REPO, "worktree", "remove", "--force", wt)
-        if used is None:
+        if used is None and not any(r[0] == sid for r in rows):
             print("%-8s %s PATCH DOES NOT APPLY anywhere" % (sid, prop), flush=True)
             rows.append((sid, prop, None, "NOAPPLY", [], -1))
     sh("git", "-C", REPO, "worktree", "prune")
